@@ -625,17 +625,19 @@ impl Indexable for ast::ArgValue {
                 Some((None, typ, positional.syntax().text_range()))
             }
             ast::ArgValue::NamedArgValue(named) => {
-                let ast::SimpleValue::String(name) =
-                    named.name()?.inner_values().next()?.simple_value()?
-                else {
-                    ctx.error(
-                        named.syntax().text_range(),
-                        "the name of named argument should be a valid identifier",
-                    );
-                    return None;
+                let name = match named.name()?.inner_values().next()?.simple_value()? {
+                    ast::SimpleValue::String(name) => name.value(),
+                    ast::SimpleValue::Identifier(name) => name.value()?,
+                    _ => {
+                        ctx.error(
+                            named.syntax().text_range(),
+                            "the name of named argument should be a valid identifier",
+                        );
+                        return None;
+                    }
                 };
                 let typ = named.value()?.index(ctx)?;
-                Some((Some(name.value()), typ, named.syntax().text_range()))
+                Some((Some(name), typ, named.syntax().text_range()))
             }
         }
     }
